@@ -115,6 +115,20 @@ func checkC15(c c15Case) (o vstat.Outcome) {
 			if err != nil || !bytes.Equal(s.GetHash(), ref) || s.GetHashType() != hash.HashType(c.HT) {
 				return vstat.Viol("sum-mismatch", "hash.Sum differs from reference")
 			}
+			// a digest handed out belongs to the caller: in-tree callers wipe theirs after use (peer.VerifyWithPublic scrubs
+			// the data hash), which must not change what the next computation over the same data gives
+			for i := range s.Hash {
+				s.Hash[i] = 0
+			}
+			for i := range sum {
+				sum[i] = 0
+			}
+			if s2, err := hash.Sum(hash.HashType(c.HT), c.Data); err != nil || !bytes.Equal(s2.GetHash(), ref) {
+				return vstat.Viol("sum-after-caller-wiped-digest", "hash.Sum over the same %d bytes differs from the reference after the caller wiped the digest it got before (%x, want %x)", len(c.Data), s2.GetHash(), ref)
+			}
+			if _, err := (&hash.Hash{HashType: hash.HashType(c.HT), Hash: append([]byte{}, ref...)}).VerifyData(c.Data); err != nil {
+				return vstat.Viol("verify-after-caller-wiped-digest", "the true digest of %d bytes no longer verifies after the caller wiped the digest it got before: %v", len(c.Data), err)
+			}
 			hs, err := hash.HashType(c.HT).BuildHasher()
 			if err != nil {
 				return vstat.Viol("hasher", "%v", err)
